@@ -278,6 +278,8 @@ def apply_op(f, op):
         kw = {}
         for d, w in op[1]:
             kw[d] = w[1] if w[0] in 'il' else (slice(w[1], w[2]) if w[0] == 's' else slice(w[1], w[2], w[3]))
+            if w[0] == 'i' and len(w) > 2:
+                kw[d] = np.int64(w[1])          # an integer that is not a python int (argmin arithmetic, array element)
         return f.sliceDimensions(**kw)
     if k == 'subset':
         return f.subsetVariables(list(op[1]))
